@@ -334,3 +334,40 @@ fn shrink_wide(new_len: usize) {
     }
     kani::cover!(new_len == 240, "w:one_byte_shorter_crosses_varint_width");
 }
+
+/// delete_cell(i) when the fragmentation counter crosses the compaction threshold (reachable only in the small-page
+/// build: the u8 counter cannot exceed (16384-24)/4): `compact` re-packs the remaining cells from the end of the page
+/// in slot order.
+fn step_delete_compacting<const N: usize>(kl: [usize; N], vl: [usize; N], i: usize) {
+    let mut page = [0u8; PAGE_SIZE];
+    let (k, _fe) = any_leaf::<N>(&mut page, kl, vl, PAGE_SIZE - 40, 0, 9, 121);
+    let r = {
+        let mut leaf = match LeafNodeMut::from_page(&mut page) { Ok(l) => l, Err(_) => { assert!(false, "role=from_page_ok"); return; } };
+        core::mem::ManuallyDrop::new(leaf.delete_cell(i))
+    };
+    assert!(r.is_ok(), "role=delete_in_range_succeeds");
+    // expected layout after compaction: remaining entries, slot order, packed downwards from PAGE_SIZE
+    let mut k2 = Known::new();
+    let mut off = PAGE_SIZE;
+    let mut c = 0;
+    while c < N { if c != i { off -= k.e[c].cell_size(); k2.push(k.e[c], off); } c += 1; }
+    let (code, which) = decode_leaf(&page, &k2, N - 1);
+    assert_leaf_ok!(code);
+    assert!(cells_intact(&page, &k2), "role=c28_compaction_keeps_cell_contents");
+    let mut c = 0; while c < N - 1 { assert!(which[c] == c, "role=c28_compaction_keeps_slot_order"); c += 1; }
+    assert!(pg::get16(&page, 6) as usize == off, "role=c29_compaction_reclaims_free_space");
+    assert!(page[8] == 0, "role=c29_compaction_resets_fragmentation_counter");
+    kani::cover!(true, "w:compaction_path_reached");
+}
+
+// @vt prop=C28,C29 tier=thorough feat=sp fs=600 bound="delete_cell(i), i in 0..=2, on ANY valid leaf of shape keys(2,5,3)/values(1,2,0) whose fragmentation counter is 121 (the delete crosses the small-page compaction threshold 122): compact() re-packs the page" outside="other shapes; the default 16 KiB build, where the u8 counter can never reach the threshold" timeout=3600 mem=24
+vt_proof_pg! { unwind = 10; fn c28_leaf_delete_triggers_compaction() {
+    step_delete_compacting::<3>([2, 5, 3], [1, 2, 0], 0); step_delete_compacting::<3>([2, 5, 3], [1, 2, 0], 1); step_delete_compacting::<3>([2, 5, 3], [1, 2, 0], 2);
+}}
+
+// @vt prop=C28,C29 tier=thorough feat=sp fs=600 bound="insert_cell_at into ANY valid leaf of shape keys(5,5,5)/values(1,1,1) (full 4-byte prefix ties possible), new key 5 / value 1 at each position 0..=3; insert_cell with find spec at positions 1 and 3" outside="other shapes" timeout=3600 mem=24
+vt_proof_pg_findspec! { unwind = 10; fn c28_leaf_insert_long_keys() {
+    let r0 = step_insert::<3>(InsKind::At, [5, 5, 5], [1, 1, 1], 5, 1, 0, false, PAGE_SIZE, 0); let _r1 = step_insert::<3>(InsKind::At, [5, 5, 5], [1, 1, 1], 5, 1, 2, false, PAGE_SIZE, 0);
+    let _r2 = step_insert::<3>(InsKind::CellFindSpec, [5, 5, 5], [1, 1, 1], 5, 1, 1, false, PAGE_SIZE, 0); let _r3 = step_insert::<3>(InsKind::CellFindSpec, [5, 5, 5], [1, 1, 1], 5, 1, 3, false, PAGE_SIZE, 0);
+    kani::cover!(r0, "w:insert_succeeds");
+}}
